@@ -218,11 +218,17 @@ macro_rules! content_insertion_fn_body {
         let handler_ptr: *mut CStreamingHandler = $handler;
         if unsafe { handler_ptr.as_ref() }.is_none_or(|handler| !handler.reserved.is_null()) {
             // we can't even safely call drop callback on this
+            $crate::errors::save_last_error(
+                $crate::errors::CStreamingHandlerError::Uninitialized.to_string(),
+            );
             return -1;
         }
         // Taking ownership of the CStreamingHandler
         let handler: Box<CStreamingHandler> = Box::new(unsafe { handler_ptr.read() });
         if handler.write_all_callback.is_none() {
+            $crate::errors::save_last_error(
+                $crate::errors::CStreamingHandlerError::Uninitialized.to_string(),
+            );
             return -1;
         }
         if let Some(target) = unsafe { $target.as_mut() } {
